@@ -87,6 +87,10 @@ FILLER = [
     "if x:\n    pass\nelse:\n    pass",
     "q = '''a\nb''' + 'c'",
     "r = ('a'\n     'b')",
+    # characters that str.splitlines() takes for line ends but Python's tokenizer (and a terminal) do not
+    "sep = 'a\u2028b'  # c\u2029d",
+    "ff = 'x\x0cy'  # page\x0cbreak",
+    "nel = 'n\x85l'  # \x1c\x1d\x1e",
 ]
 RAISERS = [
     "raise exc(*args)",
@@ -104,7 +108,7 @@ def make_source(rng, at_top=False):
     """-> source text of a module defining target(rest, exc, args, cause): raises exc(*args)"""
     pre = [] if at_top else [rng.choice(FILLER) for _ in range(rng.choice([0, 1, 2, 3, 5, 8, 12]))]
     post = [rng.choice(FILLER) for _ in range(rng.choice([0, 0, 1, 2, 4, 8]))]
-    body_pre = ["    " + ln for ln in rng.choice(FILLER[1:21]).split("\n")] if rng.random() < 0.5 else []
+    body_pre = ["    " + ln for ln in rng.choice(FILLER[1:21] + FILLER[-3:]).split("\n")] if rng.random() < 0.5 else []
     lines = ["def fail(exc, args):", "    raise exc(*args)", ""]
     head = ["def target(rest=None, exc=None, args=(), cause=None):"]
     body = body_pre + ["    " + rng.choice(RAISERS)]
@@ -160,13 +164,14 @@ def raise_case(case):
     cause = ValueError("the <b>cause</b>")
     origin = case["origin"]
     first_dir = LIB if case.get("first_ign") else APP
+    salt = "# %s\n" % case["salt"] if case.get("salt") else ""  # histories get files of their own (nothing cached carries over)
     if case.get("solo"):
-        ns = _load(_write(first_dir, "solo", SOLO_SRC), SOLO_SRC)
+        ns = _load(_write(first_dir, "solo", SOLO_SRC + salt), SOLO_SRC)
         ns["EXC"], ns["ARGS"] = exc_cls, args
         e = ns["catch"](None)
     else:
         if origin == "file":
-            path = _write(LIB if case.get("target_ign") else APP, "mod", case["src"])
+            path = _write(LIB if case.get("target_ign") else APP, "mod", case["src"] + salt)
             target = _load(path, case["src"])["target"]
         elif origin == "exec":  # no file at all
             ns = {"x": 1, "y": 2}
@@ -181,11 +186,11 @@ def raise_case(case):
         for k, hop in enumerate(case["chain"]):
             d = LIB if hop["ign"] else APP
             if hop["kind"] == "hop":
-                chain.append(_load(_write(d, "hop%d" % k, HOP_SRC + "# %d\n" % k), HOP_SRC)["hop"])
+                chain.append(_load(_write(d, "hop%d" % k, HOP_SRC + "# %d\n" % k + salt), HOP_SRC)["hop"])
             else:
-                chain.append(_load(_write(d, "rec%d" % k, REC_SRC + "# %d\n" % k), REC_SRC)["entry"](hop["kind"], hop["n"]))
+                chain.append(_load(_write(d, "rec%d" % k, REC_SRC + "# %d\n" % k + salt), REC_SRC)["entry"](hop["kind"], hop["n"]))
         chain.append(target)
-        e = _load(_write(first_dir, "catch", CATCH_SRC), CATCH_SRC)["catch"](chain)
+        e = _load(_write(first_dir, "catch", CATCH_SRC + salt), CATCH_SRC)["catch"](chain)
     if e is None:
         raise T.MachineryError("the generated code did not raise")
     return e
@@ -317,43 +322,57 @@ def real_frames(e):
     while tb is not None:
         code = tb.tb_frame.f_code
         out.append({"path": code.co_filename, "lineno": tb.tb_lineno, "fn": code.co_name,
-                    "ign": code.co_filename.startswith(LIB + os.sep)})
+                    "dir": "lib" if code.co_filename.startswith(LIB + os.sep) else "app" if code.co_filename.startswith(APP + os.sep) else ""})
         tb = tb.tb_next
     return out
 
 
-def run_render(case):
-    """case -> one "render" event"""
+def run_history(case):
+    """the case's exception is raised once and rendered once per entry of case["renders"] ([{"pat", "verb"}]; pat = which
+    directory ignore_files_in() gets: "none" | "lib" | "app") in this process -> one "render" event per render"""
     from clikit.api.io import flags as F
     from clikit.io.buffered_io import BufferedIO
     from clikit.ui.components.exception_trace import ExceptionTrace
 
     e = raise_case(case)
-    frames = real_frames(e)
-    bio = BufferedIO(supports_utf8=case["utf8"])
-    verb = {0: None, 1: F.VERBOSE, 2: F.VERY_VERBOSE, 3: F.DEBUG}[case["verb"]]
-    if verb is not None:
-        bio.set_verbosity(verb)
-    trace = ExceptionTrace(e)
-    if case["ignoring"]:
-        trace.ignore_files_in("^" + re.escape(LIB + os.sep))
-    esc = ""
-    try:
-        trace.render(bio, case["simple"])
-    except BaseException as x:  # noqa: an escaping exception is the observation
-        if isinstance(x, (KeyboardInterrupt, SystemExit, T.MachineryError)):
-            raise
-        esc = type(x).__name__
+    base = real_frames(e)
     msg = str(e)
-    c = {"simple": case["simple"], "verb": case["verb"], "ignoring": case["ignoring"], "name": cells(type(e).__name__),
-         "msg": [cells(x) for x in msg.split("\n")], "frames": [{"ign": f["ign"]} for f in frames],
-         "recursion": any(h["kind"] != "hop" for h in case["chain"]), "origin": case["origin"]}
-    o = {"esc": esc, "lines": [], "head": [], "listing": [], "snippets": []}
-    if not esc:
-        o.update(project(bio.fetch_output(), frames, case["simple"]))
-        if bio.fetch_error():
-            raise T.MachineryError("the report wrote to the error output")
-    return {"op": "render", "c": c, "o": o}
+    events = []
+    for r in case["renders"]:
+        frames = [dict(f, ign=(f["dir"] == r["pat"])) for f in base]
+        bio = BufferedIO(supports_utf8=case["utf8"])
+        verb = {0: None, 1: F.VERBOSE, 2: F.VERY_VERBOSE, 3: F.DEBUG}[r["verb"]]
+        if verb is not None:
+            bio.set_verbosity(verb)
+        trace = ExceptionTrace(e)
+        if r["pat"] != "none":
+            trace.ignore_files_in("^" + re.escape({"lib": LIB, "app": APP}[r["pat"]] + os.sep))
+        esc = ""
+        try:
+            trace.render(bio, case["simple"])
+        except BaseException as x:  # noqa: an escaping exception is the observation
+            if isinstance(x, (KeyboardInterrupt, SystemExit, T.MachineryError)):
+                raise
+            esc = type(x).__name__
+        c = {"simple": case["simple"], "verb": r["verb"], "ignoring": r["pat"] != "none", "name": cells(type(e).__name__),
+             "msg": [cells(x) for x in msg.split("\n")], "frames": [{"ign": f["ign"], "dir": f["dir"]} for f in frames],
+             "recursion": any(h["kind"] != "hop" for h in case["chain"]), "origin": case["origin"]}
+        o = {"esc": esc, "lines": [], "head": [], "listing": [], "snippets": []}
+        if not esc:
+            o.update(project(bio.fetch_output(), frames, case["simple"]))
+            if bio.fetch_error():
+                raise T.MachineryError("the report wrote to the error output")
+        events.append({"op": "render", "c": c, "o": o})
+    return events
+
+
+def renders_of(case):
+    return case.get("renders") or [{"pat": "lib" if case["ignoring"] else "none", "verb": case["verb"]}]
+
+
+def run_render(case):
+    """case with one render (fields verb, ignoring) -> one "render" event"""
+    return run_history(dict(case, renders=renders_of(case)))[0]
 
 
 def random_render_case(rng):
@@ -371,6 +390,27 @@ def random_render_case(rng):
     return {"origin": origin, "src": make_source(rng, at_top=rng.random() < 0.15), "exc": kind, "msg": rng.choice(MESSAGES),
             "chain": chain, "verb": rng.choice([0, 0, 1, 2, 3, 3]), "utf8": rng.random() < 0.7, "ignoring": rng.random() < 0.5,
             "simple": rng.random() < 0.2, "first_ign": rng.random() < 0.2, "target_ign": origin == "file" and rng.random() < 0.15}
+
+
+def random_history_case(rng, k):
+    """2-3 renders of one exception with different ignore patterns / verbosities; files of its own (salt)"""
+    case = random_render_case(rng)
+    case["origin"] = "file"
+    case["simple"] = False
+    case["salt"] = "history %d %d" % (k, rng.randint(0, 10 ** 9))
+    case["renders"] = [{"pat": rng.choice(["none", "lib", "app", "lib", "app"]), "verb": rng.choice([1, 2, 2, 3])}
+                       for _ in range(rng.choice([2, 3]))]
+    return case
+
+
+def history_case(inp, k):
+    """the case for a history TLC chose: frames = directories of catch, hops, target"""
+    dirs = [f["dir"] for f in inp["frames"]]
+    return {"origin": "file", "src": "def target(rest=None, exc=None, args=(), cause=None):\n    raise exc(*args)\n",
+            "exc": "RuntimeError", "msg": "Failed", "chain": [{"kind": "hop", "ign": d == "lib", "n": 0} for d in dirs[1:-1]],
+            "utf8": True, "simple": False, "first_ign": dirs[0] == "lib", "target_ign": dirs[-1] == "lib", "solo": False,
+            "salt": "tlc history %d" % k, "renders": [{"pat": r["pat"], "verb": r["verb"]} for r in inp["renders"]],
+            "verb": 0, "ignoring": False}
 
 
 # ------------------------------------------------------------------------------------------------ the highlighter alone
@@ -524,13 +564,16 @@ def run(ctx):
     ctx.rule = (
         "TLC checks (MC_Report) the snippet window of Highlighter.code_snippet for every source length, failing line and both "
         "window sizes (rows consecutive, exactly the failing line marked) and the frame filter of ExceptionTrace for every "
-        "ignore mask x verbosity (no ignored frame listed unless debug); (MC_Assemble) the highlighter's line assembly, token "
+        "ignore mask x verbosity (no ignored frame listed unless debug) and for every history of 2/3 renders of one exception in "
+        "one process with different ignore patterns (none / app directory / lib directory) and verbosities (what a render lists "
+        "depends on this render's frames, pattern and verbosity only; TLC must find that violated in the variant that memoises "
+        "the decision per file); (MC_Assemble) the highlighter's line assembly, token "
         "by token, on every program composed of up to 3/4 row groups (assignment, comment with markup-like text, blank, "
         "backslash continuation, 3-row string, a<b>c, bracketed 2-row expression, indented block, comment ending in a "
-        "backslash, string with an unbalanced closing tag): every row not touched by a multi-row token is shown verbatim. "
+        "backslash, string with an unbalanced closing tag, string and comment holding U+2028 / form feed / U+0085): every row not touched by a multi-row token is shown verbatim. "
         "Every emitted input is replayed on the real classes and compared.  Exceptions raised through generated source files "
         "(failing statement at varying positions incl. the first rows, multi-row statements and strings, comments, tabs, "
-        "non-ASCII, markup-like text), through exec'd and file-less code, with 27 adversarial messages x 8 exception kinds, "
+        "non-ASCII, markup-like text, characters str.splitlines() takes for line ends: U+2028/2029, FF, NEL, FS/GS/RS), through exec'd and file-less code, with 27 adversarial messages x 8 exception kinds, "
         "a cause, call chains through ignored / not ignored modules and recursion (direct, mutual) up to depth 60 are rendered "
         "at every verbosity, UTF-8 on/off, with/without an ignore pattern, simple/full; what was written is tokenised "
         "(head lines, listing entries, snippet rows with the source rows) and ErrorReportTrace decides every P-clause; the "
@@ -562,7 +605,7 @@ def _run(ctx, quick):
     # ---- spec -> code: window and frame filter
     r = ctx.model(SPEC, "MC_Report", "MC_Report_%s.cfg" % ctx.tier, name="snippet window + frame filter", workers=8)
     behs = T.emitted(r)
-    nsn = nfr = bad = 0
+    nsn = nfr = nhi = bad = 0
     for b in behs:
         inp = b["inp"]
         ctx.count()
@@ -575,19 +618,38 @@ def _run(ctx, quick):
                 cases.append({"kind": "snippet", "inp": inp})
             if inp["line"] > 1:
                 ctx.nontriv(("sn", inp["n"], inp["line"], inp["before"]))
+        elif inp["kind"] == "history":
+            nhi += 1
+            case = history_case(inp, nhi)
+            evs = run_history(case)
+            want_dirs = [f["dir"] for f in inp["frames"]]
+            for ev, r in zip(evs, inp["renders"]):
+                if [f["dir"] for f in ev["c"]["frames"]] != want_dirs:
+                    raise T.MachineryError("the generated call chain does not have the frames TLC chose: %r" % (inp,))
+            got = [[x["ix"] for x in ev["o"]["listing"]] for ev in evs]
+            if any(ev["o"]["esc"] for ev in evs) or got != [[x["ix"] for x in lst] for lst in b["out"]]:
+                bad += 1
+            # every history is also decided by TLC on what was observed
+            traces.append(evs)
+            cases.append(dict(case, kind="history"))
+            ctx.nontriv(("hi", json.dumps(inp, sort_keys=True)))
         else:
             nfr += 1
             case = frames_case(inp)
             ev = run_render(case)
-            if len(ev["c"]["frames"]) != len(inp["frames"]) or [f["ign"] for f in ev["c"]["frames"]] != [f["ign"] for f in inp["frames"]]:
+            if len(ev["c"]["frames"]) != len(inp["frames"]) or [f["dir"] == "lib" for f in ev["c"]["frames"]] != [f["ign"] for f in inp["frames"]]:
                 raise T.MachineryError("the generated call chain does not have the frames TLC chose: %r" % (inp,))
             if ev["o"]["esc"] or [x["ix"] for x in ev["o"]["listing"]] != [x["ix"] for x in b["out"]]:
                 bad += 1
                 traces.append([ev])
                 cases.append(dict(case, kind="render"))
             ctx.nontriv(("fr", json.dumps(inp, sort_keys=True)))
-    if nsn < 100 or nfr < 100:
-        raise T.MachineryError("too few inputs emitted by MC_Report (%d, %d)" % (nsn, nfr))
+    if nsn < 100 or nfr < 100 or nhi < 100:
+        raise T.MachineryError("too few inputs emitted by MC_Report (%d, %d, %d)" % (nsn, nfr, nhi))
+    r = ctx.model(SPEC, "MC_Report", "MC_Report_memo.cfg", name="ignore decision memoised per file: HistoryP must fail", workers=8,
+                  expect_ok=False)
+    if "HistoryP" not in r.violated:
+        raise T.MachineryError("TLC does not find the history dependence in the memoising model: HistoryP is vacuous")
     # ---- spec -> code: line assembly
     r = ctx.model(SPEC, "MC_Assemble", "MC_Assemble_%s.cfg" % ctx.tier, name="line assembly", workers=8)
     nas = 0
@@ -610,7 +672,7 @@ def _run(ctx, quick):
     if nas < 1000:
         raise T.MachineryError("too few programs emitted by MC_Assemble (%d)" % nas)
     ctx.exhaustive = True
-    ctx.extra["tlc_inputs_replayed"] = nsn + nfr + nas
+    ctx.extra["tlc_inputs_replayed"] = nsn + nfr + nhi + nas
     ctx.extra["tlc_inputs_not_reproduced"] = bad
 
     # ---- code -> spec: real exceptions
@@ -624,6 +686,13 @@ def _run(ctx, quick):
             ctx.nontriv(("r", t))
         if t == 3:
             ctx.sample({"render_case": {k: (v if k != "src" else v[:200]) for k, v in case.items()}})
+    # ---- code -> spec: histories - several renders of one exception in this process, different ignore patterns
+    for t in range(150 if quick else 2000):
+        case = random_history_case(ctx.rng, t)
+        traces.append(run_history(case))
+        cases.append(dict(case, kind="history"))
+        ctx.count()
+        ctx.nontriv(("hist", t))
     # ---- code -> spec: the highlighter on generated modules and on real Python files
     for t in range(400 if quick else 3000):
         src = make_source(ctx.rng, at_top=ctx.rng.random() < 0.2)
@@ -721,8 +790,12 @@ def replay(ctx, path):
                 esc = type(x).__name__
             cc = {"simple": True, "verb": 0, "ignoring": False, "name": [], "msg": [], "frames": [], "recursion": False, "origin": "corpus"}
             ev = {"op": "render", "c": cc, "o": {"esc": esc, "lines": [], "head": [], "listing": [], "snippets": [] if esc else [_snippet(c["path"], c["line"], rows)]}}
+        elif c["kind"] == "history":
+            ev = None
+            ctx.validate(SPEC, "ErrorReportTrace", "ErrorReportTrace.cfg", [run_history(c)], cases=[c], name="replay")
         else:
             ev = run_render(c)
-        ctx.validate(SPEC, "ErrorReportTrace", "ErrorReportTrace.cfg", [[ev]], cases=[c], name="replay")
+        if ev is not None:
+            ctx.validate(SPEC, "ErrorReportTrace", "ErrorReportTrace.cfg", [[ev]], cases=[c], name="replay")
     finally:
         teardown()
